@@ -10,6 +10,7 @@ import (
 	"encoding/json"
 	"fmt"
 	"log"
+	"math"
 	"os"
 	"reflect"
 	"sort"
@@ -44,10 +45,11 @@ type featSpec struct {
 type workload struct {
 	Targets    []int          `json:"targets"`
 	Features   []featSpec     `json:"features"`
-	Flush      map[string]int `json:"flush"`       // per target: simulated final-flush steps
-	SnapYields int            `json:"snap_yields"` // extra scheduling points inside one snap call (slow snapping)
-	SrcYields  int            `json:"src_yields"`  // extra scheduling points per feature in the reader (slow reader)
-	TgtYields  int            `json:"tgt_yields"`  // extra scheduling points per received feature (slow target)
+	Flush      map[string]int `json:"flush"`                     // per target: simulated final-flush steps
+	SnapYields int            `json:"snap_yields"`               // extra scheduling points inside one snap call (slow snapping)
+	SrcYields  int            `json:"src_yields"`                // extra scheduling points per feature in the reader (slow reader)
+	TgtYields  int            `json:"tgt_yields"`                // extra scheduling points per received feature (slow target)
+	NearDup    bool           `json:"near_duplicates,omitempty"` // polygons of consecutive features nearly coincide
 	// slowness in simulated TIME (the bubble's fake clock): what timer-based code reacts to
 	FlushSleepMs map[string]int `json:"flush_sleep_ms,omitempty"` // per target: duration of the final flush
 	RecvSleepMs  map[string]int `json:"recv_sleep_ms,omitempty"`  // per target: handling time per feature
@@ -151,6 +153,9 @@ func genWorkload(seed uint64, mix string) (workload, simrt.FaultPlan, simrt.MapP
 			f.Parts = []partSpec{{Out: genOut()}}
 		case "multipolygon":
 			np := r.Intn(4)
+			if r.Chance(0.01) {
+				np = 33 + r.Intn(40) // now and then a multipolygon of very many parts
+			}
 			for p := 0; p < np; p++ {
 				f.Parts = append(f.Parts, partSpec{Out: genOut()})
 			}
@@ -170,6 +175,7 @@ func genWorkload(seed uint64, mix string) (workload, simrt.FaultPlan, simrt.MapP
 		}
 		w.Features = append(w.Features, f)
 	}
+	w.NearDup = r.Chance(0.08)
 	w.Flush = map[string]int{}
 	for _, id := range ids {
 		k := 1 + r.Intn(3)
@@ -273,13 +279,23 @@ func decodeCols(f featSpec) []interface{} {
 // inputPolygon encodes (feature, part) in its coordinates so the table snap function
 // can tell which production it is asked for.
 func inputPolygon(fid, part int) geom.Polygon {
-	x, y := float64(fid), float64(part)
+	x, y := polyBase+float64(fid)*polyScale, polyBase+float64(part)*polyScale
 	return geom.Polygon{{{x, y}, {x + 1, y}, {x, y + 1}}}
+}
+
+// polyBase / polyScale place the generated polygons. Normally base 0 and spacing 1; in
+// near-duplicate mode base 5e6 and spacing 0.25, so that consecutive features' polygons
+// are equal under a tolerant comparison (relative 1e-6) while being different polygons
+// with different snapping outcomes. Set per run by build().
+var polyBase, polyScale = 0.0, 1.0
+
+func decodePolygon(p geom.Polygon) (fid, part int) {
+	return int(math.Round((p[0][0][0] - polyBase) / polyScale)), int(math.Round((p[0][0][1] - polyBase) / polyScale))
 }
 
 // outputPolygon: every produced polygon is unique and attributable to one production.
 func outputPolygon(fid, part, tm, idx int) geom.Polygon {
-	x, y := float64(fid), float64(part)
+	x, y := polyBase+float64(fid)*polyScale, polyBase+float64(part)*polyScale
 	return geom.Polygon{{{x, y}, {float64(tm) + 0.25, float64(idx) + 0.5}, {x + 0.5, y + 0.5}}}
 }
 
@@ -438,7 +454,7 @@ func (h *harness) tableSnap(p geom.Polygon, tmIDs []int) map[int][]geom.Polygon 
 	}
 	jitter(h.w.SnapYields)
 	simSleep(h.w.SnapSleepMs)
-	fid, part := int(p[0][0][0]), int(p[0][0][1])
+	fid, part := decodePolygon(p)
 	h.mu.Lock()
 	h.snapCalls++
 	f, ok := h.byID[fid]
@@ -641,6 +657,10 @@ func stepBudget(w *workload) int {
 }
 
 func build(w *workload) (*harness, *fakeSource, map[int]processing.Target) {
+	polyBase, polyScale = 0, 1
+	if w.NearDup {
+		polyBase, polyScale = 5e6, 0.25
+	}
 	h := &harness{w: w, byID: map[int]featSpec{}, targets: map[int]*fakeTarget{}}
 	src := &fakeSource{w: w, h: h}
 	for _, f := range w.Features {
